@@ -27,6 +27,7 @@ EXPLANATION = (
     "byte-for-byte equality observed through a subprocess (declined: run-time observation)."
 )
 TECHNIQUE = "static analysis: call-binding rules on the CLI wrapper, argparse destination binding, exit-status analysis of handlers and entry paths, nullness abstract interpretation of the writers' required lists"
+EXPLANATION += ' R5 also includes the segmentation pre-flight agreement (shared with C14-R2).'
 TRUSTED = [
     "CPython ast parser",
     "argparse destination naming rule (first long option, '-' -> '_')",
@@ -346,3 +347,8 @@ def run(ctx):
     from .c08_required import check_required_truthfulness
 
     check_required_truthfulness(ctx, "R5")
+
+    # the segmentation pre-flight agrees with the converter (evaluated on abstract shells; shared with C14-R2)
+    from .segpred import check_segmentation
+
+    check_segmentation(ctx, "R5", "R5")
